@@ -11,6 +11,7 @@ import operator
 from collections import OrderedDict
 import itertools
 import numbers
+import warnings
 
 import numpy as np
 
@@ -18,7 +19,7 @@ from qupulse.utils.types import ChannelID, TimeType
 from qupulse.hardware.awgs.base import ProgramEntry
 from qupulse.hardware.util import get_sample_times, voltage_to_uint16, find_positions
 from qupulse.program.waveforms import Waveform
-from qupulse.program.loop import Loop
+from qupulse.program.loop import Loop, VolatileModificationWarning
 from qupulse.program.volatile import VolatileRepetitionCount, VolatileProperty
 
 assert(sys.byteorder == 'little')
@@ -640,15 +641,19 @@ def prepare_program_for_advanced_sequence_mode(program: Loop, min_seq_len: int, 
                       and program[i - 1].repetition_count > 1
                       and len(program[i]) + len(program[i - 1]) < max_seq_len):
                     program[i][:0] = program[i - 1].copy_tree_structure()[:]
+                    if program[i - 1].volatile_repetition:
+                        warnings.warn("Partially unrolling a Loop with volatile repetition count",
+                                      VolatileModificationWarning)
                     program[i - 1].repetition_count -= 1
 
                 elif (i + 1 < len(program)
                       and program[i + 1].repetition_count > 1
                       and len(program[i]) + len(program[i + 1]) < max_seq_len):
                     program[i][len(program[i]):] = program[i + 1].copy_tree_structure()[:]
-                    program[i + 1].repetition_count -= 1
                     if program[i + 1].volatile_repetition:
-                        program[i + 1].volatile_repetition = program[i + 1].volatile_repetition - 1
+                        warnings.warn("Partially unrolling a Loop with volatile repetition count",
+                                      VolatileModificationWarning)
+                    program[i + 1].repetition_count -= 1
 
                 else:
                     raise TaborException('The algorithm is not smart enough to make this sequence table longer')
